@@ -29,7 +29,8 @@ META = {
         'of a dispatcher built in formulas/functions) looks at each of its '
         'arguments on every path that returns a non-error value - an `is '
         'None` test does not count, a None argument is not an error; (table) '
-        'unknown function names resolve to not_implemented.'),
+        'unknown function names resolve to not_implemented.'
+        ' (scanpure) get_error / raise_errors and what they call write to none of their arguments, keep no module state and are not memoised; (sinks) a conversion mapped over the values whose `str` case returns a constant drops error values (XlError is a str) and needs a dominating check.'),
     'not_decided': (
         'That the returned value is a well-formed Excel value for every '
         'argument kind, which error code is produced, and exceptions raised '
@@ -557,6 +558,42 @@ def _tuple_positions(ctx, ef, g):
     return result
 
 
+def _namedtuple_fields(module, name):
+    """Field names of `name = namedtuple('..', fields)` or of `class name(
+    namedtuple('..', fields))` defined once at module level; None otherwise."""
+    def of(call):
+        if not (isinstance(call, ast.Call) and call_name(call) == 'namedtuple'
+                and len(call.args) >= 2):
+            return None
+        return expr(call.args[1])
+
+    def expr(fa, depth=0):
+        if isinstance(fa, ast.Constant) and isinstance(fa.value, str):
+            return fa.value.replace(',', ' ').split()
+        if isinstance(fa, (ast.Tuple, ast.List)) and all(
+                isinstance(x, ast.Constant) and isinstance(x.value, str)
+                for x in fa.elts):
+            return [x.value for x in fa.elts]
+        if isinstance(fa, ast.Attribute) and fa.attr == '_fields' and \
+                isinstance(fa.value, ast.Name) and depth < 3 and \
+                fa.value.id != name:
+            return _namedtuple_fields(module, fa.value.id)
+        if isinstance(fa, ast.BinOp) and isinstance(fa.op, ast.Add):
+            a, b = expr(fa.left, depth + 1), expr(fa.right, depth + 1)
+            return None if a is None or b is None else a + b
+        return None
+    vals = module.assigns.get(name, [])
+    if len(vals) == 1:
+        return of(vals[0])
+    for st in module.tree.body:
+        if isinstance(st, ast.ClassDef) and st.name == name and len(
+                st.bases) == 1 and not any(
+                isinstance(s2, ast.FunctionDef) and s2.name == '__new__'
+                for s2 in st.body):
+            return of(st.bases[0])
+    return None
+
+
 def _tuple_elems(ctx, ef, g, r, der):
     params = g.params
 
@@ -571,6 +608,27 @@ def _tuple_elems(ctx, ef, g, r, der):
         if a is None or b is None:
             return None
         return a + b
+    if isinstance(r, ast.Call) and isinstance(r.func, ast.Name):
+        # a named tuple of the module: positions in field order
+        fields = _namedtuple_fields(g.module, r.func.id)
+        if fields is not None:
+            out, used = [], 0
+            for a in r.args:
+                if isinstance(a, ast.Starred):
+                    sub = _tuple_elems(ctx, ef, g, a.value, der)
+                    if sub is None:
+                        return None
+                    out.extend(sub)
+                else:
+                    out.append(idx(ef.sources(g, a, der)))
+            kws = {k.arg: k.value for k in r.keywords}
+            if None in kws:
+                return None
+            for f_ in fields[len(out):]:
+                if f_ not in kws:
+                    return None
+                out.append(idx(ef.sources(g, kws.pop(f_), der)))
+            return out if not kws and len(out) == len(fields) else None
     if isinstance(r, ast.Call):
         rr = ctx.cg.resolve_name_expr(g, r.func) if isinstance(
             r.func, (ast.Name, ast.Attribute)) else None
@@ -762,6 +820,11 @@ class SinkAnalysis:
                 for a in list(n.args) + [k.value for k in n.keywords]:
                     srcs |= ef.sources(fi, a, sder, True)
                 cn = cfg.node_of(n)
+                guard = self._true_guard(fi, n, env)
+                if guard is not None and cfg.node_of(guard) is not None:
+                    # `if flag: check(..)` with the flag known true: the
+                    # check is made where the flag is tested
+                    cn = cfg.node_of(guard)
                 if cn is not None:
                     checks.append((cn, srcs))
             elif isinstance(n, ast.Call):
@@ -829,8 +892,45 @@ class SinkAnalysis:
         self.memo[key] = out
         return out
 
+    def _flag_value(self, fi, name, env):
+        """True / False when the parameter `name` is known (bound by the
+        registration, else its constant default), None otherwise."""
+        if name in env:
+            c = env[name]
+            return bool(c.v) if is_const(c) else None
+        if name not in fi.all_params or any(
+                isinstance(x, ast.Name) and x.id == name and isinstance(
+                    x.ctx, ast.Store) for x in own_nodes(fi)):
+            return None
+        a = fi.node.args
+        pos = a.posonlyargs + a.args
+        for prm, d in list(zip(pos[len(pos) - len(a.defaults):], a.defaults)) \
+                + [(k, d) for k, d in zip(a.kwonlyargs, a.kw_defaults)
+                   if d is not None]:
+            if prm.arg == name and isinstance(d, ast.Constant):
+                return bool(d.value)
+        return None
+
+    def _true_guard(self, fi, call, env):
+        """The test of `if flag: check(..)` (the check a statement of the
+        body, no else) when the flag is a parameter known true."""
+        for n in own_nodes(fi):
+            if isinstance(n, ast.If) and not n.orelse and isinstance(
+                    n.test, ast.Name) and any(
+                    isinstance(st, ast.Expr) and st.value is call
+                    for st in n.body):
+                if self._flag_value(fi, n.test.id, env) is True:
+                    return n.test
+        return None
+
     def _condition_of(self, fi, call, env):
         """For `X and check(...)`: False if X is a parameter known false."""
+        for n in own_nodes(fi):
+            if isinstance(n, ast.If) and isinstance(n.test, ast.Name) and any(
+                    isinstance(st, ast.Expr) and st.value is call
+                    for st in n.body):
+                if self._flag_value(fi, n.test.id, env) is False:
+                    return False
         for n in own_nodes(fi):
             if isinstance(n, ast.BoolOp) and isinstance(n.op, ast.And) and \
                     call in n.values:
@@ -873,12 +973,59 @@ class SinkAnalysis:
         for e in ext:
             if e in SINK_EXT:
                 return '%s (NaN -> 0)' % e, list(call.args[:1])
+            if e == 'builtins.map' and len(call.args) == 2:
+                g = self._conv_func(fi, call.args[0], env)
+                if g is not None and self._absorbs_errors(g):
+                    return ('map with the conversion `%s`, whose `str` case '
+                            'turns an error value (a str subclass) into an '
+                            'ordinary value' % g.qualname), [call.args[1]]
             if e == 'builtins.filter' and len(call.args) == 2:
                 v = self._pred_value(fi, call.args[0], env)
                 if v == FALSE:
                     return ('filter with predicate `%s` that rejects XlError'
                             % norm_src(call.args[0])), [call.args[1]]
         return None, []
+
+    def _conv_func(self, fi, e, env):
+        if isinstance(e, ast.Name) and e.id in env:
+            v = env[e.id]
+            return v.fi if isinstance(v, FuncV) and not v.fi.is_lambda else None
+        if isinstance(e, (ast.Name, ast.Attribute)):
+            r = self.ctx.cg.resolve_name_expr(fi, e)
+            if r and r[0] == 'func':
+                return r[1]
+        return None
+
+    def _absorbs_errors(self, g):
+        """g(v) starts with type tests on its one parameter, and the first
+        test an XlError instance passes is `isinstance(v, str)` (XlError derives
+        from str) with a constant returned: the error is replaced by it."""
+        if len(g.params) != 1 or g.vararg or g.kwarg:
+            return False
+        v = g.params[0]
+        for st in g.body:
+            if isinstance(st, ast.Expr) and isinstance(st.value, ast.Constant):
+                continue
+            if not (isinstance(st, ast.If) and isinstance(st.test, ast.Call)
+                    and isinstance(st.test.func, ast.Name) and
+                    st.test.func.id == 'isinstance' and len(
+                        st.test.args) == 2 and isinstance(
+                        st.test.args[0], ast.Name) and
+                    st.test.args[0].id == v):
+                return False
+            t = st.test.args[1]
+            names = [x.id for x in (t.elts if isinstance(t, ast.Tuple) else [t])
+                     if isinstance(x, ast.Name)]
+            if 'XlError' in names or 'Token' in names:
+                return False
+            if 'str' in names:
+                return len(st.body) == 1 and isinstance(
+                    st.body[0], ast.Return) and isinstance(
+                    st.body[0].value, ast.Constant)
+            if not names or not set(names) <= {'bool', 'int', 'float', 'bytes',
+                                               'list', 'tuple', 'dict'}:
+                return False
+        return False
 
     def _pred_value(self, fi, pred, env):
         if isinstance(pred, ast.Name) and pred.id in env:
@@ -1286,9 +1433,60 @@ def rule_errkeep_unused(ctx):
     return rr
 
 
+def rule_scanpure(ctx):
+    rr = RuleResult('C11', 'C11.scanpure', 'DEF',
+                    'the error scan (get_error / raise_errors and what they '
+                    'call) writes nothing to the values it scans and keeps no '
+                    'result between calls', floor=2)
+    p = ctx.project
+    E = ctx.effects
+    roots = [p.func(FUNCS_REL, 'get_error'), p.func(FUNCS_REL, 'raise_errors')]
+    closure, work = list(roots), [(r, 0) for r in roots]
+    while work:
+        g, d = work.pop()
+        if d >= 3:
+            continue
+        for e in ctx.cg.out(g):
+            if e.is_ext or e.kind != 'call' or e.precision != 'exact' or \
+                    e.dst.name == '__init__' or e.dst in closure:
+                continue
+            if e.dst.module.rel.startswith('formulas/'):
+                closure.append(e.dst)
+                work.append((e.dst, d + 1))
+    for g in closure:
+        rr.instances += 1
+        sm = E.summ.get(g.fq)
+        if sm is None:
+            raise AnalysisError('%s: no effect summary' % g.fq)
+        w = None
+        if sm.mutates:
+            prm = sorted(sm.mutates)[0]
+            w = (sm.mutates[prm], 'its argument `%s`' % prm)
+        elif sm.global_writes:
+            w = (sm.global_writes[0], 'module state')
+        elif E.is_memoised(g):
+            rr.fail(key_of(g, 'error scan keeps state'),
+                    '%s is memoised: the scan of a mutable array is answered '
+                    'from an earlier call' % g.qualname, file=g.module.rel,
+                    function=g.qualname, line=g.lineno)
+            continue
+        if w is not None:
+            rr.fail(key_of(g, 'error scan keeps state'),
+                    '%s, part of the error scan behind get_error/raise_errors, '
+                    'writes to %s (%s): what it records about a mutable array '
+                    'outlives the call and answers for later contents'
+                    % (g.qualname, w[1], w[0].describe()), file=g.module.rel,
+                    function=g.qualname, line=w[0].lineno or g.lineno)
+        else:
+            rr.ok('%s writes to nothing but its own locals' % g.qualname,
+                  '%s:%d' % (g.module.rel, g.lineno))
+    return rr
+
+
 def run(ctx):
     S = ctx.soft
     ef = ErrFlow(ctx)
     return [S(rule_total, ctx), S(rule_catch, ctx), S(rule_finite, ctx),
             S(rule_errkeep_ufunc, ctx, ef), S(rule_errkeep_sinks, ctx, ef),
-            S(rule_errkeep_unused, ctx), S(rule_table, ctx)]
+            S(rule_errkeep_unused, ctx), S(rule_table, ctx),
+            S(rule_scanpure, ctx)]
